@@ -20,11 +20,19 @@ func init() {
 
 type vScoped struct{ tag int }
 
+// vWrapCtx decorates the request Context; a middleware may re-register it for
+// the Context type in the request scope.
+type vWrapCtx struct {
+	Context
+	tag int
+}
+
 func VH_C04_request() {
-	appHas := vx.Bool()   // the application scope maps a *vScoped
-	reqMaps := vx.Bool()  // the first handler maps one in the request scope
+	appHas := vx.Bool()     // the application scope maps a *vScoped
+	reqMaps := vx.Bool()    // the first handler maps one in the request scope
 	secondAsks := vx.Bool() // the second handler takes it as a parameter (else via c.Value-free path)
 	wrapKind := vx.Choice(4)
+	remap := vx.Bool() // the first handler re-registers a decorated Context for the Context type
 
 	f := NewWithLogger(io.Discard)
 	if appHas {
@@ -32,9 +40,14 @@ func VH_C04_request() {
 	}
 	var seen []int
 	var wrapSeen []string
+	var wrapped *vWrapCtx
 	f.Use(func(c Context) {
 		if reqMaps {
 			c.Map(&vScoped{tag: 2})
+		}
+		if remap {
+			wrapped = &vWrapCtx{Context: c, tag: 7}
+			c.MapTo(wrapped, (*Context)(nil))
 		}
 	})
 	if secondAsks {
@@ -42,8 +55,9 @@ func VH_C04_request() {
 	}
 	// the four handler shapes that are wrapped automatically, each must receive
 	// this request's own context / writer / request
-	var theCtx Context
-	f.Use(func(c Context) { theCtx = c })
+	var theCtx, reflCtx Context
+	f.Use(func(c Context, _ *http.Request) { reflCtx = c }) // resolved through reflection
+	f.Use(func(c Context) { theCtx = c })                   // wrapped automatically
 	switch wrapKind {
 	case 0:
 		f.Get("/", func(c Context) {
@@ -93,10 +107,15 @@ func VH_C04_request() {
 		if secondAsks {
 			vx.Assert(len(seen) == 1 && seen[0] == wantTag, "C04: the request scope is consulted before the application scope")
 		}
+		vx.Assert(theCtx == reflCtx, "C04: an automatically wrapped func(Context) receives the value a reflective call resolves for Context")
+		if remap {
+			vx.Assert(reflCtx == Context(wrapped), "C04: a later registration for Context in the request scope replaces the earlier one")
+		}
 		vx.Assert(len(wrapSeen) == 1, "C04: an automatically wrapped handler runs exactly once with this request's own context, writer and request")
 	}
 	// a second request: nothing mapped during the first is visible
 	reqMaps = false
+	remap = false
 	seen = nil
 	p2 := serve()
 	if secondAsks {
@@ -106,5 +125,5 @@ func VH_C04_request() {
 			vx.Assert(p2 && len(seen) == 0, "C04: values mapped during a request are visible to that request only (second request cannot resolve it)")
 		}
 	}
-	vx.Observe("request", appHas, secondAsks, wrapKind, p1, p2)
+	vx.Observe("request", appHas, secondAsks, wrapKind, remap, p1, p2)
 }
